@@ -266,6 +266,15 @@ Proof.
   assert (bs_intersects seen y = true) by (apply bs_intersects_spec; exists i; split; [apply Hs, Hx|exact Hy]). congruence.
 Qed.
 
+Lemma intersects_sub_false_r x y y' : sub y' y -> bs_intersects x y = false -> bs_intersects x y' = false.
+Proof.
+  intros Hs Hf. destruct (bs_intersects x y') eqn:E; [|reflexivity].
+  apply bs_intersects_spec in E as [i [Hx Hy]].
+  assert (bs_intersects x y = true) by (apply bs_intersects_spec; exists i; split; [exact Hx|apply Hs, Hy]). congruence.
+Qed.
+Lemma existing_sub v cs : sub (existing v cs) cs.
+Proof. unfold existing. destruct (is_zero (nv_pus v)); [apply sub_refl|]. intros i H. rewrite mem_inter in H. now apply andb_true_iff in H. Qed.
+
 Lemma create_nodes_disjoint v indexes : allow_overlap v = 0%Z -> ForallOrdPairs disjoint_slots (create_nodes v indexes).
 Proof.
   intros Ha. unfold create_nodes.
@@ -274,7 +283,7 @@ Proof.
                match read_mask (nf_cpumap (find_node v os)) with
                | None => (acc ++ [None], seen)
                | Some cs => if bs_intersects seen cs && (allow_overlap v =? 0)%Z then (acc ++ [None], seen)
-                            else (acc ++ [Some (os, cs)], bs_union seen cs)
+                            else (acc ++ [Some (os, existing v cs)], bs_union seen cs)
                end) idx (acc, seen)))).
   { assert (App : forall acc x, ForallOrdPairs disjoint_slots acc -> (forall y, In y acc -> disjoint_slots y x) ->
                    ForallOrdPairs disjoint_slots (acc ++ [x])).
@@ -290,10 +299,11 @@ Proof.
         intros o Ho. apply in_app_or in Ho as [Ho|[<-|[]]]; [exact (W _ Ho)|exact I].
       + apply IH.
         * apply App; [exact F|]. intros y Hy. specialize (W _ Hy). destruct y as [[o' c']|]; [|exact I].
-          cbn [disjoint_slots slot_in] in *. eapply intersects_sub_false; [exact W|exact Hi].
+          cbn [disjoint_slots slot_in] in *. eapply intersects_sub_false_r; [apply existing_sub|].
+          eapply intersects_sub_false; [exact W|exact Hi].
         * intros o Ho. apply in_app_or in Ho as [Ho|[<-|[]]].
           -- specialize (W _ Ho). destruct o as [[o' c']|]; [|exact I]. cbn [slot_in] in *. eapply sub_trans; [exact W|apply sub_union_l].
-          -- cbn [slot_in]. apply sub_union_r.
+          -- cbn [slot_in]. eapply sub_trans; [apply existing_sub|apply sub_union_r].
     - apply IH; [apply App; [exact F|intros y _; now destruct y as [[? ?]|]]|].
       intros o Ho. apply in_app_or in Ho as [Ho|[<-|[]]]; [exact (W _ Ho)|exact I]. }
   apply G; [constructor|intros o []].
